@@ -373,6 +373,72 @@ theorem sync_duration_drops_element :
 /-- the hypotheses of `expire_never_keyerror` / `duration_expires_group` are satisfiable: a live duration -/
 example : ((run (exCfg fun _ => none) init [.src (.next 1)]).groups.map fun r => decide (r.dur = .live)) = [true] := by decide
 
+/-! ### durations derived from the group itself (`duration_mapper = lambda g: g.pipe(ops.skip(n))`): machine `stepD` -/
+
+/-- **stepD_eq_step / runD_eq_run.** The general machine (`stepD`, used by the driver) is the machine `step` of the
+theorems above whenever no duration is derived from its group: every theorem above transfers to `runD`. -/
+theorem stepD_eq_step (cfg : Cfg α κ β) (hnod : ∀ g, cfg.dgrp g = none) (s : St κ β) (e : Ev α) :
+    stepD cfg s e = step cfg s e := WinGrp.stepD_eq_step hnod s e
+theorem runD_eq_run (cfg : Cfg α κ β) (hnod : ∀ g, cfg.dgrp g = none) (s : St κ β) (evs : List (Ev α)) :
+    runD cfg s evs = run cfg s evs := WinGrp.runD_eq_run hnod s evs
+
+/-- **group_announced_before_duration_before_element.** In the step that creates group `g` (any state with the source
+and the outer subscriber live and the RefCountDisposable not disposed; mappers not raising; duration derived from the
+group or at least not firing inside its own subscribe) the effects occur in this order: the outer subscriber is handed
+the group, the duration is subscribed, the element is pushed to the writer (tap) and — if the subscriber attached
+itself inside the outer `on_next` — delivered to it.  (So a group-derived duration sees the creating element, and the
+early subscriber is in front of the duration observer: seeded change C19_1 swaps the first two and is refuted.) -/
+theorem group_announced_before_duration_before_element (cfg : Cfg α κ β) (s : St κ β) (x : α) (k : κ) (v : β)
+    (hs : s.srcStopped = false) (ho : s.outStopped = false) (hd : s.rcdDisposed = false)
+    (hk : cfg.keyMapper x = .ok k) (hf : s.writers.find? (fun p => cfg.keyEq p.1 k) = none)
+    (hsm : cfg.subjMapper s.groups.length = .ok ()) (hdm : cfg.durMapper s.groups.length = .ok ())
+    (hv : cfg.elemMapper x = .ok v)
+    (hdur : (cfg.dgrp s.groups.length).isSome = true ∨ cfg.dsync s.groups.length = none) :
+    ∃ rest, (stepD cfg s (.src (.next x))).out =
+      s.out ++ (.outer (.next (s.groups.length, k)) :: .subDur s.groups.length :: .tap s.groups.length (.next v) ::
+        (if cfg.imm s.groups.length then [.grp s.groups.length (.next v)] else []) ++ rest) :=
+  WinGrp.group_announced_before_duration_before_element cfg s x k v hs ho hd hk hf hsm hdm hv hdur
+
+/-- **derived_duration_counts.** While `g.pipe(skip n)` still has elements to skip, an element of the group is delivered
+(tap, subscriber), the counter decreases by one, nothing else happens. -/
+theorem derived_duration_counts (cfg : Cfg α κ β) (s : St κ β) (g : Nat) (v : β) (r : Grp κ β) (m : Nat)
+    (hg : s.groups[g]? = some r) (hst : r.stopped = false) (hl : r.dur = .live) (hdg : (cfg.dgrp g).isSome = true)
+    (hc : r.dcnt = m + 1) (hsub : r.sub = .active) :
+    (writerNextD cfg s g v).out = s.out ++ [.tap g (.next v), .grp g (.next v)] ∧
+    (writerNextD cfg s g v).groups[g]? = some { r with dcnt := m, wlog := r.wlog ++ [.next v], seen := r.seen ++ [.next v] } :=
+  WinGrp.derived_duration_counts cfg s g v r m hg hst hl hdg hc hsub
+
+/-- **derived_duration_expires_with_element.** When the counter is exhausted (`announceD` sets it to `n`, so this is the
+(n+1)-th element of the group), that element is delivered to the tap and to the early subscriber first and the group's
+`completed` follows immediately, inside the same `writer.on_next`; after it only unsubscriptions happen. -/
+theorem derived_duration_expires_with_element (cfg : Cfg α κ β) (s : St κ β) (g : Nat) (v : β) (r : Grp κ β)
+    (hg : s.groups[g]? = some r) (hst : r.stopped = false) (hl : r.dur = .live) (hdg : (cfg.dgrp g).isSome = true)
+    (hc : r.dcnt = 0) (hsub : r.sub = .active) (hearly : r.subLate = false)
+    (hkey : (s.writers.find? (fun p => cfg.keyEq p.1 r.key)).isSome = true) :
+    ∃ l, (writerNextD cfg s g v).out =
+        s.out ++ [.tap g (.next v), .grp g (.next v), .tap g .completed, .grp g .completed] ++ l ∧
+      ∀ e ∈ l, Eff.isUnsub e = true :=
+  WinGrp.derived_duration_expires_with_element cfg s g v r hg hst hl hdg hc hsub hearly hkey
+
+/-- non-vacuity: `skip(1)` durations — every group of key 1 ends right after its second element, which its subscriber
+sees before the completion; a group-derived duration still pending at the source's completion (fixed behaviour,
+`fixes/C19_completion_mutates_writers.patch`): every group completes, then the outer; a late subscriber (after the
+duration observer) gets the completion without the expiring element -/
+example : view (runD { exCfg (fun _ => none) with dgrp := fun _ => some 1 } init
+    [.src (.next 1), .src (.next 3), .src (.next 5), .src (.next 7), .src .completed]) =
+    [(1, [.next 10, .next 30, .completed], true), (1, [.next 50, .next 70, .completed], true)] := by decide
+example : ((runD { exCfg (fun _ => none) with dgrp := fun _ => some 1 } init
+    [.src (.next 1), .src (.next 3)]).groups.map (·.seen)) = [[.next 10, .next 30, .completed]] := by decide
+example : view (runD { exCfg (fun _ => none) with dgrp := fun _ => some 5 } init
+    [.src (.next 1), .src (.next 2), .src (.next 3), .src .completed]) =
+    [(1, [.next 10, .next 30, .completed], true), (0, [.next 20, .completed], true)] := by decide
+example : ((runD { exCfg (fun _ => none) with dgrp := fun _ => some 5 } init
+    [.src (.next 1), .src (.next 2), .src (.next 3), .src .completed]).out.filterMap fun e =>
+      match e with | .outer n => some n | .escaped _ => some (.error "escaped") | _ => none) =
+    [.next (0, 1), .next (1, 0), .completed] := by decide
+example : ((runD { exCfg (fun _ => none) with dgrp := fun _ => some 1, imm := fun _ => false } init
+    [.src (.next 1), .subGroup 0, .src (.next 3)]).groups.map (·.seen)) = [[.completed]] := by decide
+
 /-! ### partition -/
 /-- **partition_exactly_one.** `partition(pred)`: with both outputs subscribed, the first output receives exactly the
 source elements satisfying the predicate, the second exactly those that do not — each in source order — and
